@@ -895,3 +895,54 @@ def is_plain_terminal(e, tname: str) -> bool:
         return False
     rest = list(e.args[1:]) + [k.value for k in e.keywords]
     return all(isinstance(a, ast.Constant) and not a.value for a in rest)
+
+
+# ---------------------------------------------------------------------------------------------------------------
+# lambda-argument frames (shared by C08: bound names, and C09: a name that is not bound where it is used is refused)
+def check_lambda_frames(col, rule: str, repo: Repo, m):
+    from sa.core.paths import enclosing, parent_map
+    col.floor(rule, 5)
+    sites = []
+    for f in repo.all_functions():
+        for c in walk_no_nested(f.node):
+            if isinstance(c, ast.Call) and call_name(c) == "define_name":
+                sites.append((f, c))
+    if not sites:
+        raise AnalysisError("no define_name call found: lambda parameters are never bound")
+    for f, c in sites:
+        pm = parent_map(f.node)
+        withs = [w for w in enclosing(f.node, c, (ast.With,), pm)
+                 if any(isinstance(i.context_expr, ast.Call) and call_name(i.context_expr) == "stack_frame" and src(i.context_expr.args[0]) == src(c.func.value)
+                        for i in w.items)]
+        col.add(rule, f.short, "binding-inside-its-own-frame", len(withs) == 1,
+                "define_name must be called lexically inside `with stack_frame(<the same stack>)`: a binding made in the enclosing frame outlives the "
+                "lambda and captures later uses of an outer parameter of the same name", f"{f.module.rel}:{c.lineno}")
+        if withs:
+            w = withs[0]
+            body_tr = [x for x in ast.walk(w) if isinstance(x, ast.Call) and call_name(x) in ("get_rep", "get_rep_value", "visit") and ".func.body" in src(x)]
+            col.add(rule, f.short, "body-translated-inside-the-same-frame", len(body_tr) == 1,
+                    "the lambda body must be translated while its frame is live (inside the same with block)", f"{f.module.rel}:{w.lineno}")
+        # positional pairing and key-only use of the name
+        loops = enclosing(f.node, c, (ast.For,), pm)
+        ok = False
+        if loops:
+            lp = loops[0]
+            it = lp.iter
+            ok = isinstance(it, ast.Call) and call_name(it) == "zip" and [src(a) for a in it.args] == ["call_node.args", "call_node.func.args.args"] \
+                and isinstance(lp.target, ast.Tuple) and len(lp.target.elts) == 2 \
+                and [src(a) for a in c.args] == [f"{src(lp.target.elts[1])}.arg", src(lp.target.elts[0])]
+        col.add(rule, f.short, "parameter-k-bound-to-argument-k", ok,
+                "bindings must pair call arguments and lambda parameters by position: define_name(<param>.arg, <argument>) over zip(call.args, lambda.args.args)",
+                f"{f.module.rel}:{c.lineno}")
+        uses = [n for n in ast.walk(f.node) if isinstance(n, ast.Attribute) and n.attr == "arg" and isinstance(n.value, ast.Name)]
+        col.add(rule, f.short, "parameter-name-is-only-a-key", len(uses) == 1,
+                f"the parameter's name text must not flow anywhere but the binding key ({len(uses)} uses of .arg)", f.loc)
+    other = [f"{f.short}:{call_name(c)}" for f in repo.all_functions() for c in walk_no_nested(f.node)
+             if isinstance(c, ast.Call) and call_name(c) in ("push_stack_frame", "pop_stack_frame")]
+    col.add(rule, "func_adl_xAOD", "no-manual-frame-push-or-pop", not other, f"manual frame operations: {other}")
+    vcl = m.get("visit_Call_Lambda")
+    if vcl is None:
+        raise AnalysisError("visit_Call_Lambda not found")
+    col.add(rule, vcl.short, "single-binding-site", [f.short for f, _ in sites] == [vcl.short],
+            f"define_name is called from {[f.short for f, _ in sites]}; only visit_Call_Lambda may bind names")
+
